@@ -325,7 +325,7 @@ func (fr *Frame) applyContract(callee *ssa.Function, sp *spec.FuncSpec, args []V
 	if sp.NoBody || sp.Trusted {
 		vc.Assumed["assumed contract: "+key] = true
 	}
-	env := &SpecEnv{vc: vc, fr: fr, st: st, names: map[string]Val{}, bound: map[string]Val{}}
+	env := &SpecEnv{vc: vc, fr: fr, st: st, names: map[string]Val{}, bound: map[string]Val{}, owner: callee}
 	env.pkg = calleePkg(callee)
 	if o := callee.Origin(); o != nil && o.TypeParams().Len() == len(callee.TypeArgs()) {
 		env.typeArgs = map[string]types.Type{}
@@ -1525,7 +1525,7 @@ func (fr *Frame) linkFuncValue(f *ssa.Function) {
 	app := "(" + pn + " " + strings.Join(vars, " ") + ")"
 	dyn := "(" + name + " " + strings.Join(append([]string{id}, vars...), " ") + ")"
 	// contract of F for arbitrary arguments
-	env := &SpecEnv{vc: vc, st: NewState(), names: map[string]Val{}, bound: map[string]Val{}, pkg: calleePkg(f)}
+	env := &SpecEnv{vc: vc, st: NewState(), names: map[string]Val{}, bound: map[string]Val{}, pkg: calleePkg(f), owner: f}
 	env.old = env.st
 	for i, n := range calleeParamNames(f, sp) {
 		if i < len(args) {
